@@ -198,6 +198,11 @@ func laExec(r *core.Run, c laCase) (*core.Fail, string) {
 	asVec := func(a ref.Arr) ref.Arr { return ref.Arr{DT: a.DT, Shape: []int{len(a.El)}, El: a.El} }
 	switch c.op {
 	case "Inner":
+		if len(arrA.El) != len(arrB.El) {
+			want = ref.Arr{}
+			invalid = true // vectors of unequal length have no inner product: only a refusal is acceptable
+			break
+		}
 		want = contract(asVec(arrA), asVec(arrB), []int{0}, []int{0})
 	case "MatVecMul":
 		want = contract(arrA, asVec(arrB), []int{1}, []int{0})
@@ -461,6 +466,18 @@ func runC09(r *core.Run) {
 									laRun(r, laCase{op: "Inner", d: d, sa: fa, sb: fb, la: la, lb: lb, mode: "safe", vs: vs, api: api})
 								}
 								laRun(r, laCase{op: "Dot", d: d, sa: fa, sb: fb, la: la, lb: lb, mode: "safe", vs: vs, api: "func"})
+							}
+							// unequal lengths (among them the length of the other operand's storage WINDOW): must be refused
+							if len(fa) == 1 && vs == "int" {
+								for _, m2 := range []int{m + 1, 2 * m, m + 2} {
+									if m2 == m {
+										continue
+									}
+									for _, api := range []string{"method", "func"} {
+										laRun(r, laCase{op: "Inner", d: d, sa: fa, sb: []int{m2}, la: la, lb: lb, mode: "safe", vs: vs, api: api})
+										laRun(r, laCase{op: "Inner", d: d, sa: []int{m2}, sb: fa, la: la, lb: lb, mode: "safe", vs: vs, api: api})
+									}
+								}
 							}
 							for n := 1; n <= maxd; n++ {
 								for _, fb := range vecForms(n) {
